@@ -34,8 +34,11 @@ type CheckDef struct {
 	Rule      string
 	Assume    []string
 	Units     func(tier string) []Unit
-	Race      bool                     // needs the race build
-	Budget    map[string]time.Duration // wall budget per tier
+	// Post runs once in the parent after the units; it returns extra coverage entries and an
+	// infrastructure error message ("" if none)
+	Post   func() (map[string]any, string)
+	Race   bool                     // needs the race build
+	Budget map[string]time.Duration // wall budget per tier
 }
 
 var checks = map[string]*CheckDef{}
@@ -234,10 +237,19 @@ func runCheck(prop, tier string) int {
 		fmt.Println("INFRA:", infra)
 		return 2
 	}
-	return report(c, tier, seed, units, results, time.Since(start))
+	var extra map[string]any
+	if c.Post != nil {
+		var msg string
+		extra, msg = c.Post()
+		if msg != "" {
+			fmt.Println("INFRA:", msg)
+			return 2
+		}
+	}
+	return report(c, tier, seed, units, results, time.Since(start), extra)
 }
 
-func report(c *CheckDef, tier string, seed int, units []Unit, results []*Stats, wall time.Duration) int {
+func report(c *CheckDef, tier string, seed int, units []Unit, results []*Stats, wall time.Duration, extra map[string]any) int {
 	known := loadKnown()
 	type unitSummary struct {
 		Name       string `json:"name"`
@@ -364,6 +376,9 @@ func report(c *CheckDef, tier string, seed int, units []Unit, results []*Stats, 
 			"known_findings_reproduced":      knownHit,
 			"per_unit":                       sums,
 		},
+	}
+	for k, v := range extra {
+		ev["coverage"].(map[string]any)[k] = v
 	}
 	b, _ := json.MarshalIndent(ev, "", " ")
 	os.MkdirAll(filepath.Join(outDir(), "evidence"), 0o755)
